@@ -80,6 +80,7 @@ FAMS_THOROUGH = "table:8000,rv:300,so2:150,so3:150,se2:150,se3:120,css:120"
 SPACE_STAGES = {
     "C03": [("interp:spacing", ["interp"], False, False), ("compound:resolution", ["compound"], False, False)],
     "C05": [("interp:steer", ["interp"], False, False)],
+    "C15": [("interp:steer", ["interp"], False, False)],
     "C16": [("interp:steer", ["interp"], False, False)],
     "C18": [("metric:radius-test", ["metric"], False, False), ("compound:resolution", ["compound"], False, False)],
     "C04": [("interp:convexity", ["interp"], False, False)],
@@ -120,7 +121,9 @@ def stages(pid, tier, seed, replay):
             st.append({"name": name, "kind": "spaces", "args": args, "header": SP_HEADER, "fn": "check_space_array", "ref": ref})
     if pid in ("C19", "C20"):
         n = 14 if tier == "quick" else 60
-        pyf = ",".join(f"py-{v}:{n}" for v in ("rv", "so2", "so3", "se2", "se3", "css"))
+        # SO(2) worlds are solved in two or three states: many more of them are needed for a path to contain a raw
+        # uniform sample (and they cost next to nothing)
+        pyf = ",".join(f"py-{v}:{n * (20 if v == 'so2' and pid == 'C19' else 1)}" for v in ("rv", "so2", "so3", "se2", "se3", "css"))
         if pid == "C19":
             st.append({"name": "python-vs-core:planners", "kind": "planners", "py": "planners",
                        "args": ["--seed", str(seed), "--families", pyf, "--threads", "8"]})
